@@ -55,12 +55,3 @@ func VerifRemoveForeignPublisher() {
 	vnd.Cover(true, "foreign removal ignored")
 }
 
-// VerifStaleSubStreamIsMute: units written through a sub-stream that is no longer the stream's current one go nowhere.
-func VerifStaleSubStreamIsMute() {
-	st := &stream.Stream{}
-	stale := &stream.SubStream{Stream: st}
-	// no media/format maps are set on the stale sub-stream: any attempt to route the unit would fault
-	panicked := vnd.Panics(func() { stale.WriteUnit(nil, nil, nil) })
-	vnd.Assert(!panicked, "a replaced publisher's write is dropped before any routing")
-	vnd.Cover(true, "stale write dropped")
-}
